@@ -1,6 +1,7 @@
 SPECIFICATION TraceSpec
 CONSTANTS
   Defect_TieBreakByPartialCmp = FALSE
+  Defect_NoopModifyUnchecked = FALSE
 INVARIANTS
   C32_BranchesCommute
   C32_BranchIdempotent
